@@ -327,14 +327,16 @@ impl CelValue {
         if let CelValue::Int(l) = lhs {
             match rhs {
                 CelValue::Int(_) => (lhs, rhs),
-                CelValue::UInt(u) => (lhs, (u as i64).into()),
+                // not every uint fits an int: the pair is kept as it is and the operators
+                // work on the exact values (see mixed_ints)
+                CelValue::UInt(_) => (lhs, rhs),
                 CelValue::Float(_) => ((l as f64).into(), rhs),
                 CelValue::Bool(b) => (lhs, (b as i64).into()),
                 _ => (lhs, rhs),
             }
         } else if let CelValue::UInt(l) = lhs {
             match rhs {
-                CelValue::Int(_) => ((l as i64).into(), rhs),
+                CelValue::Int(_) => (lhs, rhs),
                 CelValue::UInt(_) => (lhs, rhs),
                 CelValue::Float(_) => ((l as f64).into(), rhs),
                 CelValue::Bool(b) => (lhs, (b as u64).into()),
@@ -380,6 +382,9 @@ impl CelValue {
         match (lhs, rhs) {
             (CelValue::Int(l), CelValue::Int(r)) => Ok(l.partial_cmp(&r)),
             (CelValue::UInt(l), CelValue::UInt(r)) => Ok(l.partial_cmp(&r)),
+            // int against uint: compared by value
+            (CelValue::Int(l), CelValue::UInt(r)) => Ok((l as i128).partial_cmp(&(r as i128))),
+            (CelValue::UInt(l), CelValue::Int(r)) => Ok((l as i128).partial_cmp(&(r as i128))),
             (CelValue::Float(l), CelValue::Float(r)) => Ok(l.partial_cmp(&r)),
             (CelValue::Bool(l), CelValue::Bool(r)) => Ok(l.partial_cmp(&r)),
             (CelValue::String(l), CelValue::String(r)) => Ok(l.partial_cmp(&r)),
@@ -543,6 +548,21 @@ impl CelValue {
                 op
             ))),
         }
+    }
+
+    /// The operands of an int-with-uint operation as mathematical integers. Such a pair
+    /// gives an int; a uint does not always fit one, so the arithmetic is done on i128.
+    fn mixed_ints(lhs: &CelValue, rhs: &CelValue) -> Option<(i128, i128)> {
+        match (lhs, rhs) {
+            (CelValue::Int(l), CelValue::UInt(r)) => Some((*l as i128, *r as i128)),
+            (CelValue::UInt(l), CelValue::Int(r)) => Some((*l as i128, *r as i128)),
+            _ => None,
+        }
+    }
+
+    /// Result of an int-with-uint operation: an int when it is representable.
+    fn mixed_int_result(val: Option<i128>, op: &str) -> CelValue {
+        CelValue::checked_int_result(val.and_then(|v| i64::try_from(v).ok()), op)
     }
 
     #[inline]
@@ -720,6 +740,12 @@ impl CelValueDyn for CelValue {
                 match (lhs, rhs) {
                     (CelValue::Int(l), CelValue::Int(r)) => CelValue::from_bool(l == r),
                     (CelValue::UInt(l), CelValue::UInt(r)) => CelValue::from_bool(l == r),
+                    (CelValue::Int(l), CelValue::UInt(r)) => {
+                        CelValue::from_bool(l as i128 == r as i128)
+                    }
+                    (CelValue::UInt(l), CelValue::Int(r)) => {
+                        CelValue::from_bool(l as i128 == r as i128)
+                    }
                     (CelValue::Float(l), CelValue::Float(r)) => CelValue::from_bool(l == r),
                     (CelValue::Bool(l), CelValue::Bool(r)) => CelValue::from_bool(l == r),
                     (CelValue::String(l), CelValue::String(r)) => CelValue::from_bool(l == r),
@@ -1249,6 +1275,12 @@ impl Add for CelValue {
                 (lhs_val, rhs_val)
             };
 
+            if cfg!(feature = "type_prop") {
+                if let Some((l, r)) = CelValue::mixed_ints(&lhs, &rhs) {
+                    return CelValue::mixed_int_result(l.checked_add(r), "+");
+                }
+            }
+
             match lhs {
                 CelValue::Int(val1) => {
                     if let CelValue::Int(val2) = rhs {
@@ -1321,6 +1353,12 @@ impl Sub for CelValue {
                 (lhs_val, rhs_val)
             };
 
+            if cfg!(feature = "type_prop") {
+                if let Some((l, r)) = CelValue::mixed_ints(&lhs, &rhs) {
+                    return CelValue::mixed_int_result(l.checked_sub(r), "-");
+                }
+            }
+
             match lhs {
                 CelValue::Int(val1) => {
                     if let CelValue::Int(val2) = rhs {
@@ -1372,6 +1410,12 @@ impl Mul for CelValue {
                 (lhs_val, rhs_val)
             };
 
+            if cfg!(feature = "type_prop") {
+                if let Some((l, r)) = CelValue::mixed_ints(&lhs, &rhs) {
+                    return CelValue::mixed_int_result(l.checked_mul(r), "*");
+                }
+            }
+
             match lhs {
                 CelValue::Int(val1) => {
                     if let CelValue::Int(val2) = rhs {
@@ -1412,6 +1456,15 @@ impl Div for CelValue {
             } else {
                 (lhs_val, rhs_val)
             };
+
+            if cfg!(feature = "type_prop") {
+                if let Some((l, r)) = CelValue::mixed_ints(&lhs, &rhs) {
+                    if r == 0 {
+                        return CelValue::from_err(CelError::DivideByZero);
+                    }
+                    return CelValue::mixed_int_result(l.checked_div(r), "/");
+                }
+            }
 
             match lhs {
                 CelValue::Int(val1) => {
@@ -1461,6 +1514,15 @@ impl Rem for CelValue {
             } else {
                 (lhs_val, rhs_val)
             };
+
+            if cfg!(feature = "type_prop") {
+                if let Some((l, r)) = CelValue::mixed_ints(&lhs, &rhs) {
+                    if r == 0 {
+                        return CelValue::from_err(CelError::DivideByZero);
+                    }
+                    return CelValue::mixed_int_result(l.checked_rem(r), "%");
+                }
+            }
 
             match lhs {
                 CelValue::Int(val1) => {
